@@ -190,4 +190,9 @@ def scan_schedules(edges, rnd, per_label=2):
                 j = max(1, len(ops) - 1 - back)
                 prog = ops[:j] + [{'op': 'step', 'count': 1}] * p + ops[j:]
                 out.append({'label': t['label'], 'pause_after_calls': p, 'prog': prog})
+                # the removal that makes the table shrink is a deadline that has passed (keyspace only: the key stays in
+                # the table until somebody walks over it - possibly the SCAN itself, in the middle of its walk)
+                if t['label'].startswith('shrink') and ops[-1]['op'] == 'del' and back == 0:
+                    prog2 = ops[:j] + [{'op': 'step', 'count': 1}] * p + ops[j:-1] + [dict(ops[-1], how='expire')]
+                    out.append({'label': t['label'] + ' by expiry', 'pause_after_calls': p, 'prog': prog2})
     return out
